@@ -257,8 +257,84 @@ def gen_wdbi(rng, n):
     return out
 
 
-def gen_io(rng, n):
+def _io_case(default, did, cp, vals, pyvals, vals_ok, mchoice, pick=(), form='dict'):
+    """one io_control case: identifier, control parameter, values (bytes + the Python spelling), masks as True / False / named picks in list / dict / object form"""
+    e = IO.get(did)
+    if e is None and default is not None and 0 <= did <= 0xFFFF:
+        e = dict(codec=default)
+    masks = None
+    mline = '-'
+    mask_ok = True
+    mask_bytes = b''
+    if mchoice in ('T', 'F'):
+        masks = mchoice == 'T'
+        mline = mchoice
+        ms = e.get('mask_size') if e else None
+        mask_ok = e is not None and ms is not None
+        if mask_ok:
+            mask_bytes = (b'\xFF' if masks else b'\x00') * ms
+    elif mchoice == 'named':
+        pick = list(pick)
+        mline = '|'.join('%s~%s' % (k, b01(v)) for k, v in pick) if pick else '.'
+        if form == 'list' and all(v for _, v in pick):
+            masks = [k for k, _ in pick]
+        elif form == 'dict':
+            masks = dict(pick)
+        else:
+            masks = IOMasks(**dict(pick))
+        mask_ok = e is not None and 'mask' in e and all(k in e['mask'] for k, _ in pick)
+        if mask_ok:
+            val = 0
+            for k, v in pick:
+                if v:
+                    val |= e['mask'][k]
+            ms = e.get('mask_size')
+            size = ms if ms is not None else (val.bit_length() + 7) // 8
+            mask_ok = val < 256 ** size
+            if mask_ok:
+                mask_bytes = val.to_bytes(size, 'big')
+    cfg_ok = e is not None and not ('mask' in (e or {}) and e.get('mask_size') is not None and any(v > 2 ** (e['mask_size'] * 8) - 1 for v in e['mask'].values()))
+    in_dom = (0 <= did <= 0xFFFF and (cp is None or 0 <= cp <= 3) and cfg_ok and vals_ok and mask_ok
+              and not (vals is None and masks is not None))
+    line = 'enc e=io %s did=%d cp=%s vals=%s masks=%s' % (iocfg_line(default), did, oint(cp), ohx(vals), mline)
+    canon = None
+    view = (1 if cp is not None else 0, len(vals) if vals is not None else 0)
+    if in_dom:
+        canon = 'io %d %s %s %s' % (did, oint(cp), hx(vals or b''), hx(mask_bytes))
+    return Case('io_control', lambda c, did=did, cp=cp, pyvals=pyvals, masks=masks: c.io_control(did, cp, pyvals, masks), line, in_dom, canon,
+                {'input_output': io_config(default)}, view=view, sid=0x2F)
+
+
+def io_corpus():
+    """fixed cases that run first whatever the seed: every composite identifier x every form of giving the masks (list of names, dict, IOMasks object, True, False)
+    x which of its masks are set (all, none, each one alone cleared, each one alone set)"""
     out = []
+    for did, e in IO.items():
+        if 'mask' not in e:
+            continue
+        kind = e['codec']
+        nlen = kind[1] if kind[1] is not None else 2
+        vals = bytes((0x11 * (i + 1)) & 0xFF for i in range(nlen))
+        pyvals = list(vals) if kind[0] == 'B' else [vals]
+        names = list(e['mask'])
+        picks = [[(nm, True) for nm in names], [(nm, False) for nm in names], []]
+        for one in names:
+            picks.append([(nm, nm != one) for nm in names])
+            picks.append([(nm, nm == one) for nm in names])
+            picks.append([(one, True)])
+            picks.append([(one, False)])
+        for pick in picks:
+            for form in ('list', 'dict', 'obj'):
+                if form == 'list' and not all(v for _, v in pick):
+                    continue
+                out.append(_io_case(None, did, 3, vals, pyvals, True, 'named', pick, form))
+        for m in ('T', 'F', 'none'):
+            out.append(_io_case(None, did, 3, vals, pyvals, True, m))
+    return out
+
+
+def gen_io(rng, n):
+    out = io_corpus()
     for _ in range(n):
         default = rng.choice([None, None, ('B', 1)])
         did = rng.choice(list(IO) + [0x9999]) if rng.random() < 0.93 else rng.choice(BAD16)
@@ -287,51 +363,14 @@ def gen_io(rng, n):
             else:
                 pyvals = [vals]
         mchoice = 'named' if focus else rng.choice(['none', 'none', 'T', 'F', 'named', 'named', 'named'])
-        masks = None
-        mline = '-'
-        mask_ok = True
-        mask_bytes = b''
-        if mchoice in ('T', 'F'):
-            masks = mchoice == 'T'
-            mline = mchoice
-            ms = e.get('mask_size') if e else None
-            mask_ok = e is not None and ms is not None
-            if mask_ok:
-                mask_bytes = (b'\xFF' if masks else b'\x00') * ms
-        elif mchoice == 'named':
+        pick, form = [], 'dict'
+        if mchoice == 'named':
             names = list(e['mask']) if e and 'mask' in e else []
             pick = [(nm, rng.random() < 0.7) for nm in names if rng.random() < 0.7]
             if rng.random() < 0.15:
                 pick.append(('nosuch', rng.random() < 0.5))      # an undefined name is refused whatever value it carries
-            mline = '|'.join('%s~%s' % (k, b01(v)) for k, v in pick) if pick else '.'
             form = rng.choice(['list', 'dict', 'obj'])
-            if form == 'list' and all(v for _, v in pick):
-                masks = [k for k, _ in pick]
-            elif form == 'dict':
-                masks = dict(pick)
-            else:
-                masks = IOMasks(**dict(pick))
-            mask_ok = e is not None and 'mask' in e and all(k in e['mask'] for k, _ in pick)
-            if mask_ok:
-                val = 0
-                for k, v in pick:
-                    if v:
-                        val |= e['mask'][k]
-                ms = e.get('mask_size')
-                size = ms if ms is not None else (val.bit_length() + 7) // 8
-                mask_ok = val < 256 ** size
-                if mask_ok:
-                    mask_bytes = val.to_bytes(size, 'big')
-        cfg_ok = e is not None and not ('mask' in (e or {}) and e.get('mask_size') is not None and any(v > 2 ** (e['mask_size'] * 8) - 1 for v in e['mask'].values()))
-        in_dom = (0 <= did <= 0xFFFF and (cp is None or 0 <= cp <= 3) and cfg_ok and vals_ok and mask_ok
-                  and not (vals is None and masks is not None))
-        line = 'enc e=io %s did=%d cp=%s vals=%s masks=%s' % (iocfg_line(default), did, oint(cp), ohx(vals), mline)
-        canon = None
-        view = (1 if cp is not None else 0, len(vals) if vals is not None else 0)
-        if in_dom:
-            canon = 'io %d %s %s %s' % (did, oint(cp), hx(vals or b''), hx(mask_bytes))
-        out.append(Case('io_control', lambda c, did=did, cp=cp, pyvals=pyvals, masks=masks: c.io_control(did, cp, pyvals, masks), line, in_dom, canon,
-                        {'input_output': io_config(default)}, view=view, sid=0x2F))
+        out.append(_io_case(default, did, cp, vals, pyvals, vals_ok, mchoice, pick, form))
     return out
 
 
